@@ -460,9 +460,9 @@ def ssc_notes_item(ctx: Ctx) -> None:
                            has_alias is True and has_name is False, unparse_facts(fs),
                            f"alias is selected under {unparse_facts(fs)}; the attribute view selects it iff 'NOTES' not in self and 'NOTES2' in self",
                            node=b.node)
-            if b.kind == "assign" and isinstance(b.value, ast.Constant) and b.value.value == d.key:
-                n0 = cfg_node_of(cfg, fi, b.node)
-                ctx.expect("R-ORDER", fi, "default notes key set before the loop", cfg.dominates(n0, lnode), "", "", node=b.node)
+        bnodes = [cfg_node_of(cfg, fi, b.node) for b in binds if b.kind == "assign"]
+        ctx.expect("R-ORDER", fi, "the notes key is chosen before the loop on every path", cfg.must_pass(bnodes, goal=lnode) is None and not any(in_body(loop, b.node) for b in binds), "",
+                   "the item loop can be reached before the notes key is chosen", node=loop)
     elif form == "in-loop":
         pass  # recognised by key inside the loop (checked above)
     else:
